@@ -40,4 +40,15 @@ def exNm : XA Nat :=
 def exM : XA Nat :=
   { exNm with axes := [{ name := "x", size := 3, coord := some { vals := [0, 1, 5], units := none } }] }
 
+/-- hand-built 2-component DataArray: `x = 0,1,2` without coordinate (xarray's default index),
+`t = 10, 10.5`, component axis last, no labels, no geometric attributes -/
+def exHand : XA Nat :=
+  { name := "hand",
+    axes := [{ name := "x", size := 3, coord := none },
+             { name := "t", size := 2, coord := some { vals := [10, 21/2], units := some "s" } },
+             { name := "vdims", size := 2, coord := none }],
+    vdimsCoord := none, data := ⟨[3, 2, 2], fun i => flatC [3, 2, 2] i⟩,
+    attrs := { units := none, cell := none, pmin := none, pmax := none, nvdim := some (.int 2), tol := none },
+    dtype := "int64" }
+
 end DFV.C17
